@@ -43,6 +43,9 @@ class FromParamsBound(ConfiguredBaseModel):
 class TypeDefBound(pd.RootModel):
     root: Annotated[ExplicitBound | FromParamsBound, pd.Field(discriminator="b")]
 
+    # the decoder needs the tag: say so in the published schema as well
+    model_config = pd.ConfigDict(json_schema_extra={"required": ["b"]})
+
 
 class TypeDef(ConfiguredBaseModel):
     extension: ExtensionId
